@@ -138,4 +138,11 @@ theorem C20_cx_dagre_spacing_detached : ¬ (Box.onBorder ⟨348, 235, 62, 66⟩ 
   unfold Box.onBorder Box.containsTol Box.strictlyInsideTol Box.right Box.bottom
   norm_num
 
+/-- dagre, a tall `document`: the connection ends at (111, 295) on the bottom of the bounding box [57,114]×[0,295],
+    3 px from its right corner, where the wavy bottom edge of the shape is higher up (the end is on the box border,
+    which is why only the harness' outline probe can tell) -/
+theorem C20_cx_document_corner : Box.onBorder ⟨57, 0, 57, 295⟩ 1 ⟨111, 295⟩ := by
+  unfold Box.onBorder Box.containsTol Box.strictlyInsideTol Box.right Box.bottom
+  norm_num
+
 end D2V.Clip
